@@ -10,3 +10,4 @@ CONSTANTS
   Resizes <- CtxResizes
   MaxDepth = 7
   Emit = TRUE
+  CheckDump = FALSE
